@@ -31,7 +31,9 @@ Definition dist_flag (tg : zstate) (weighted : bool) : bool :=
 
 (* kind 63: the adjacency searched is the transpose of the graph's adjacency
    (directed: via reverse(); undirected: the adjacency is symmetric), so the
-   distances found are incoming distances *)
+   distances found are incoming distances.  Since round 2 this is a THEOREM for every reachable
+   state (C06_reverse_transposes, C06_undirected_adjacency_symmetric, C06_closeness_reachable in
+   Properties/C06.v); the flag is kept as a per-case tie between model and code *)
 Definition transpose_flag (g tg : zstate) (weighted : bool) : bool :=
   match zconv_adj weighted (successors_vec g), zconv_adj weighted (successors_vec tg) with
   | Some a0, Some b => check_transpose a0 b
